@@ -71,9 +71,9 @@ def run(ctx):
                 base, ad = util.iter_chain(tg_src)
                 base = strip(base)
                 if isinstance(base, tuple) and base[0] == 'agg' and base[1] == 'array' and len(base) == 4:
+                    # non_colliding_offsets(&self, initial, from, to, kinematics): the limits are parameters 3 and 4
                     ps = sorted(util.param_index(x) or -1 for x in base[2:])
-                    names = sorted(nb.name_of(p) for p in ps if p > 0)
-                    tg_ok = names == ['from', 'to']
+                    tg_ok = ps == [3, 4]
             ok = k_ok and tg_ok
             found = 'k from %s, target from %s' % (show(k_src, maxdepth=3) if k_src else None, show(tg_src, maxdepth=4) if tg_src else None)
     ctx.check(ok, 'R14.1', 'tasks', nb.where(pushes[0][0]) if pushes else nb.where(0), nb.path, 'tasks must be (k, target) for k in 0..6 and target in {from, to}', found=found, detail=found or '')
@@ -96,7 +96,9 @@ def run(ctx):
             i, j, it, v = ws[0]
             v = strip(v)
             found = '%s[%s] := %s (init %s)' % (c.name_of(loc), show(it, maxdepth=4), show(v, maxdepth=5), show(A, maxdepth=4))
-            init_ok = isinstance(A, tuple) and A[0] == 'fld' and 'initial' in A[2]
+            # the closure captures the parent's second parameter (the configuration the offsets start from)
+            init_ok = isinstance(A, tuple) and A[0] == 'fld' and util.is_param(strip(A[1]), 1) and nb.name_of(2) is not None and \
+                A[2].lstrip('*&') == nb.name_of(2)
             # it == (param2).0 ; v == idx((param2).1, (param2).0)
             k_t = strip(it)
             k_ok = isinstance(k_t, tuple) and k_t[0] == 'fld' and k_t[2] == '0' and util.is_param(k_t[1], 2)
